@@ -38,6 +38,7 @@ type Config struct {
 	PanicOK       bool
 	InitPkgs      []string
 	Field         FieldModel
+	CodecConsumes bool // the abstract field-vector codec moves 4 + n*size bytes through the caller's reader / writer
 	AlgebraCrypto bool // group elements are their discrete logarithms (reals)
 	Summaries     map[string]*ssa.Function // callee name suffix -> harness function standing in for it (proved equivalent by its own harness)
 	summaryNames  map[string]string
@@ -171,6 +172,8 @@ func main() {
 			fmt.Sscan(f[1], &cfg.MaxIndexSplit)
 		case "crypto":
 			cfg.AlgebraCrypto = f[1] == "algebra"
+		case "codec":
+			cfg.CodecConsumes = f[1] == "consumes"
 		case "goroutines":
 			cfg.Scheduled = f[1] == "scheduled"
 			cfg.MaxPreempt = 1
